@@ -40,6 +40,8 @@ CURATED = [
     ("{[#A][#B].[#C]}.{#A=CC[$],#B=[$]C[$],#C=[$]CO}", False),
     ("{[#M][#M].[#M]}.{#M=[$]CC[$]O}", False),
     ("{[#A]}.{#A=CC(=O)[O-].[Na+]}", False),
+    ("{[#A]}.{#A=CC(=O)[O-].[Ca+2].[O-]C(=O)C}", False),
+    ("{[#A][#B]}.{#A=[$]CC(=O)[O-].[Mg+2],#B=[$]CS(=O)(=O)[O-]}", False),
     # ring bonds between aromatic atoms that are not aromatic themselves (fluorene, 9,10-dihydrophenanthrene)
     ("{[#A]}.{#A=C1c2ccccc2-c2ccccc12}", False),
     ("{[#A]}.{#A=c1ccc2c(c1)CCc1ccccc1-2}", False),
@@ -376,7 +378,7 @@ def run_history(scenario):
                 violate("C18.embed", "node %r has no finite 3-vector after embedding (%r)" % (node, pos), seq, "no-position")
                 return
         if sc["engine"] == "stub" and engine_called:
-            table = proxy.last_atoms
+            table = getattr(mol, "table", None) or proxy.last_atoms
             seen = {}
             for node in aa.nodes:
                 pos = aa.nodes[node]["position"]
@@ -486,6 +488,9 @@ def run_history(scenario):
                     coords.embedd_cg_molecule_via_rdkit(cg, aa)
                 if proxy.calls == calls0:
                     stats["probe:embed_without_engine_call"] = stats.get("probe:embed_without_engine_call", 0) + 1
+                mol.table = proxy.last_atoms if proxy.calls > calls0 else None
+                mol.embedded = True
+                mol.moved = False
                 check_positions(mol, seq, proxy.calls > calls0)
                 if kind == "embed_cg":
                     check_forward(mol, seq)
@@ -511,6 +516,7 @@ def run_history(scenario):
                         shift = -np.asarray(aa.nodes[nodes[op["to_origin"] % len(nodes)]]["position"], dtype=float)
                     for node in aa.nodes:
                         aa.nodes[node]["position"] = np.asarray(aa.nodes[node]["position"], dtype=float) + shift
+                    mol.moved = True
                     coords.forward_map_molecule(cg, aa)
                     check_forward(mol, seq)
                     for bead, old in before.items():
@@ -613,6 +619,12 @@ def run_history(scenario):
                               "embed_cg": "C18.embed", "forward": "C18.forward-map", "translate_forward": "C18.forward-map"}[kind]
                     violate(oracle, "%s raised %s" % (kind, text), seq, "raised:" + type(exc).__name__)
         events.append(event)
+    # every molecule that was embedded is looked at once more when the history is over: what another molecule's
+    # embedding, a translation of someone else or a re-ordering did in between must not have touched it
+    for idx, mol in enumerate(mols):
+        if getattr(mol, "embedded", False) and not getattr(mol, "moved", False) and all("position" in mol.aa.nodes[n] for n in mol.aa.nodes):
+            check_positions(mol, len(sc["ops"]), getattr(mol, "table", None) is not None)
+            stats["end_of_history_rechecks"] = stats.get("end_of_history_rechecks", 0) + 1
     stats["engine_calls"] = proxy.calls
     stats["engine_failures"] = proxy.failures
     stats["optimiser_calls"] = proxy.opt_calls
